@@ -240,3 +240,56 @@ class Reductions(Contract):
         st = obs['status']
         out['no_overflow'] = And(Not(B(st['overflow'])), Not(B(st['underflow'])))
         return out
+
+
+
+# ==========================================================================================================
+@contract
+class MatmulBounded(Contract):
+    """BOUNDED stand-in for the free-form NumPy route (np.matmul goes through
+    __array_ufunc__ -> _wrapped_numpy_func -> __array_wrap__, i.e. floats and size inference): the result is a
+    fixed-point object whose values are exactly the mathematical matrix product and agree with np.dot / x.dot,
+    for every signedness mix, extreme and seeded-random codes."""
+    name = 'functions:matmul (bounded)'
+    layer = 5
+    native_only = True
+    props = {'*': ['C15']}
+
+    def configs(self, tier):
+        fms = [(True, 4, 2), (False, 3, 0), (True, 6, 3), (False, 5, 5)] if tier == 'quick' else [(True, 4, 2), (False, 3, 0), (True, 6, 3), (False, 5, 5), (True, 8, 0), (False, 8, 4), (True, 12, 6)]
+        for fx in fms:
+            for fy in fms:
+                yield dict(fx=list(fx), fy=list(fy))
+
+    def run(self, cfg, P, inp):
+        import os, random
+        from fractions import Fraction
+        np = P.np
+        sx, nx, fx = cfg['fx']; sy, ny, fy = cfg['fy']
+        rng = random.Random(int(os.environ.get('VERIF_SEED', '0') or 0) * 7919 + nx * 31 + ny)
+        lox, hix = range_of(sx, nx); loy, hiy = range_of(sy, ny)
+        bad = []; cases = 0
+        def vals(code, f): return Fraction(code) * pow2(-f)
+        for (shx, shy) in (((2, 2), (2, 2)), ((2, 3), (3, 2)), ((2,), (2,)), ((2, 2), (2,))):
+            for trial in range(6):
+                pick = lambda lo, hi: [lo, hi][trial % 2] if trial < 2 else (rng.choice([lo, hi]) if trial < 4 else rng.randint(lo, hi))
+                cx = [pick(lox, hix) for _ in range(nelem(shx))]; cy = [pick(loy, hiy) for _ in range(nelem(shy))]
+                if trial == 1: cy = [loy if hiy else 0 for _ in cy]
+                x = P.Fxp(np.array(cx).reshape(shx), sx, nx, fx, raw=True); y = P.Fxp(np.array(cy).reshape(shy), sy, ny, fy, raw=True)
+                ex = np.array([vals(c, fx) for c in cx], dtype=object).reshape(shx).dot(np.array([vals(c, fy) for c in cy], dtype=object).reshape(shy))
+                exl = [Fraction(v) for v in np.asarray(ex, dtype=object).ravel()] if hasattr(ex, 'ravel') else [Fraction(ex)]
+                for name, z in (('matmul', np.matmul(x, y)), ('np_dot', np.dot(x, y)), ('method_dot', x.dot(y))):
+                    cases += 1
+                    got = [Fraction(c) * pow2(-z.n_frac) for c in (z.val.ravel().tolist() if z.val.ndim else [z.val.item()])]
+                    ok = got == exl and isinstance(z, P.Fxp) and not z.status['overflow'] and not z.status['underflow']
+                    if not ok and len(bad) < 5:
+                        bad.append([name, list(shx), list(shy), cx, cy, [str(g) for g in got], [str(e) for e in exl], z.dtype])
+        return {'bad': bad, 'cases': cases}
+
+    def post(self, cfg, inp, obs):
+        if obs['exc']:
+            return {}
+        failed = {b[0] for b in obs['bad']}
+        out = {k: (k not in failed) for k in ('matmul', 'np_dot', 'method_dot')}
+        out['details'] = len(obs['bad']) == 0
+        return out
